@@ -111,6 +111,7 @@ class Skel:
         PARAMS.clear()
         LETS.clear()
         LETS.update(hir.let_env(it["body"]))
+        self._fn_body = it["body"]
         STATE_NAMES.clear()
         STATE_NAMES.update(_state_names(it))
         k = 0
@@ -138,7 +139,23 @@ class Skel:
                         if a["k"] == "Path" and a["path"].get("hid") in snaps and (field_path(b_) or ("",))[-1] == "head" and len(field_path(b_)) == 2 and field_path(b_)[0] in STATE_NAMES:
                             cmps[a["path"]["hid"]] += 1
             self.progress_only = {h for h in snaps if uses[h] == cmps[h] and uses[h] > 0}
-        return self.norm(self.ops(it["body"]))
+        return self.tail_ret(self.norm(self.ops(it["body"])))
+
+    def tail_ret(self, seq):
+        """`return X` in tail position of the function is `X`: the ('ret',) marker is dropped there (recursively into the branches of a tail
+        `if` / `match`; not inside loops, where `return` and falling through differ)"""
+        seq = list(seq)
+        while seq and seq[-1] == ("ret",):
+            seq.pop()
+        if seq and isinstance(seq[-1], tuple) and seq[-1]:
+            o = seq[-1]
+            if o[0] == "if":
+                seq[-1] = ("if", o[1], self.tail_ret(o[2]), self.tail_ret(o[3]))
+            elif o[0] == "match":
+                seq[-1] = ("match", tuple(self.tail_ret(a) for a in o[1]))
+            elif o[0] == "else":
+                seq[-1] = ("else", self.tail_ret(o[1]))
+        return tuple(seq)
 
     # ---- canonical branch form ------------------------------------------------------------------------------------------------------
     # `if c { return .. } REST`, `if !c { REST } else { return .. }`, `match c { true => REST, false => break }` are one production: a test
@@ -190,7 +207,24 @@ class Skel:
             if k is not None:
                 other = self.COMPLEMENT.get(k[0]) if len(k) == 1 else None
                 return self.match_ops(self.ops(c["init"]), [(k, tt), ((other,) if other else None, ee)])
-        return [("if", self.norm(self.ops(c)), self.norm(tt), self.norm(ee))]
+        ee_n = self.norm(ee)
+        # `if a && b {T}` (nothing in the else branch) is `if a { if b {T} }`; `while a && b {..}` is `while a { if !b {break} .. }`
+        conj = self.conjuncts(c)
+        if len(conj) > 1 and not ee_n:
+            inner = self.norm(tt)
+            for x in reversed(conj):
+                inner = (("if", self.norm(self.ops(x)), inner, ()),)
+            return list(inner)
+        return [("if", self.norm(self.ops(c)), self.norm(tt), ee_n)]
+
+    @staticmethod
+    def conjuncts(c):
+        c = strip(c)
+        while c.get("k") == "DropTemps":
+            c = strip(c["e"])
+        if c.get("k") == "Binary" and c.get("op") in ("&&", "And"):
+            return Skel.conjuncts(c["l"]) + Skel.conjuncts(c["r"])
+        return [c]
 
     # ---- independent pure bindings are order-free -------------------------------------------------------------------------------------
     PURE_STD = {"chars", "count", "len", "clone", "to_owned", "to_string", "iter", "into_iter", "is_empty", "as_str", "as_ref", "as_slice", "deref",
@@ -270,10 +304,79 @@ class Skel:
                 run = []
         return out + sort_run(run)
 
+    def two_way(self, e):
+        """(scrutinee, [(key, body), (key, body)]) of a two-armed `match` on plain variant patterns / an `if let P = x {A} else {B}`;
+        else None.  Keys are variant-name tuples (the complement of Some/None/Ok/Err is known; an unknown complement is None = last)."""
+        if e is None:
+            return None
+        e = strip(e)
+        while e.get("k") == "DropTemps":
+            e = strip(e["e"])
+        if e.get("k") == "If" and strip(e["cond"]).get("k") == "LetExpr":
+            c = strip(e["cond"])
+            k = self.arm_key(c["pat"])
+            if k is None:
+                return None
+            other = (self.COMPLEMENT[k[0]],) if len(k) == 1 and k[0] in self.COMPLEMENT else None
+            return c["init"], [(k, e["then"]), (other, e.get("else"))]
+        if e.get("k") == "Match" and len(e.get("arms", [])) == 2 and "Desugar" not in e.get("source", "") and "ForLoop" not in e.get("source", ""):
+            if self.as_branch(e):
+                return None
+            ks = [self.arm_key(a["pat"], a.get("guard")) for a in e["arms"]]
+            if ks[0] is None or (ks[1] is None and (e["arms"][1].get("guard") or e["arms"][1]["pat"].get("k") not in ("Wild", "Binding"))):
+                return None
+            if ks[1] is None and len(ks[0]) == 1 and ks[0][0] in self.COMPLEMENT:
+                ks[1] = (self.COMPLEMENT[ks[0][0]],)
+            return e["scrut"], [(ks[0], e["arms"][0]["body"]), (ks[1], e["arms"][1]["body"])]
+        return None
+
+    def two_way_ops(self, tw, rest):
+        """like branch_ops for a two-way match: what follows goes into the continuing arm when exactly one arm leaves"""
+        sc, arms = tw
+        bodies = [self.ops(b) if b is not None else [] for k, b in arms]
+        lv = [self.leaves(b) for k, b in arms]
+        if rest is not None and lv[0] != lv[1]:
+            bodies[1 if lv[0] else 0] = bodies[1 if lv[0] else 0] + rest
+        return self.match_ops(self.ops(sc), [(arms[0][0], bodies[0]), (arms[1][0], bodies[1])])
+
+    def fold_cond_temps(self, stmts):
+        """`let c = <test>; if !c { break }` -> `if !(<test>) { break }`: a named temporary that is used once, as the condition of the very
+        next statement, is read as that condition"""
+        out, i = [], 0
+        while i < len(stmts):
+            s = stmts[i]
+            nxt = stmts[i + 1] if i + 1 < len(stmts) else None
+            if (s.get("k") == "Let" and s.get("init") is not None and not s.get("els") and s["pat"].get("k") == "Binding" and not s["pat"].get("sub")
+                    and "Mut" not in (s["pat"].get("mode") or "").split(",")[-1] and nxt is not None and nxt.get("k") in ("Semi", "Expr")):
+                e = strip(nxt["expr"])
+                while e.get("k") == "DropTemps":
+                    e = strip(e["e"])
+                if e.get("k") == "If":
+                    hid = s["pat"].get("hid")
+                    uses = [n for n in hir.walk(self._fn_body) if n.get("k") == "Path" and n.get("path", {}).get("res") == "local" and n["path"].get("hid") == hid]
+                    c, path = e["cond"], []
+                    while True:
+                        c = strip(c)
+                        if c.get("k") == "DropTemps" or (c.get("k") == "Unary" and c.get("op") in ("!", "Not")):
+                            path.append(c)
+                            c = c["e"]
+                            continue
+                        break
+                    if len(uses) == 1 and c.get("k") == "Path" and c.get("path", {}).get("hid") == hid:
+                        new_c = s["init"]
+                        for w in reversed(path):
+                            new_c = dict(w, e=new_c)
+                        out.append(dict(nxt, expr=dict(e, cond=new_c)))
+                        i += 2
+                        continue
+            out.append(s)
+            i += 1
+        return out
+
     def block_ops(self, stmts, tail, ordered=False):
         out = []
         if not ordered:
-            stmts = self.canon_order(stmts)
+            stmts = self.canon_order(self.fold_cond_temps(stmts))
         for i, s in enumerate(stmts):
             if s["k"] == "Let":
                 br = self.as_branch(s.get("init")) if not s.get("els") else None
@@ -281,6 +384,17 @@ class Skel:
                     # `let x = match c { true => V, false => return .. };` == `if !c { return .. } let x = V;`
                     rest = self.block_ops(stmts[i + 1:], tail, True)
                     return out + self.branch_ops(br, rest)
+                tw = self.two_way(s.get("init")) if not s.get("els") else None
+                if tw and self.leaves(tw[1][0][1]) != self.leaves(tw[1][1][1]):
+                    # `let x = match o { Some(v) => v, None => return .. };` == `let Some(x) = o else { return .. };`
+                    rest = self.block_ops(stmts[i + 1:], tail, True)
+                    return out + self.two_way_ops(tw, rest)
+                if s.get("els") and s.get("init") is not None:
+                    k = self.arm_key(s["pat"])
+                    if k is not None:
+                        other = (self.COMPLEMENT[k[0]],) if len(k) == 1 and k[0] in self.COMPLEMENT else None
+                        rest = self.block_ops(stmts[i + 1:], tail, True)
+                        return out + self.match_ops(self.ops(s["init"]), [(k, rest), (other, self.ops(s["els"]))])
                 out += self.ops(s.get("init"))
                 ip = field_path(strip(s["init"])) if s.get("init") else None
                 if ip and ip[0] in STATE_NAMES and ip[-1] in ("head", "len_env") and s["pat"]["k"] == "Binding" \
@@ -293,6 +407,10 @@ class Skel:
                 if br and self.leaves(br[1]) != self.leaves(br[2]):
                     rest = self.block_ops(stmts[i + 1:], tail, True)
                     return out + self.branch_ops(br, rest)
+                tw = self.two_way(s["expr"])
+                if tw and self.leaves(tw[1][0][1]) != self.leaves(tw[1][1][1]):
+                    rest = self.block_ops(stmts[i + 1:], tail, True)
+                    return out + self.two_way_ops(tw, rest)
                 out += self.ops(s["expr"])
         out += self.ops(tail)
         return out
@@ -326,6 +444,9 @@ class Skel:
             if m.startswith("is_") and (strip(e["recv"]).get("ty") or "") in ("char", "&char"):
                 return inner + [("cls", m)]
             d = e.get("def") or ""
+            if MOD in d and m in ("err", "parse_error"):
+                return inner + [("err",)]          # building an error value consumes nothing: a marker, like `return` (however it is spelled:
+                                                   # `self.err(..)`, `Err(self.parse_error(..))`, `.map_err(|_| self.parse_error(..))`)
             if MOD in d or m.startswith(LOCAL_PREFIXES):
                 return inner + [("call", m) + tuple(argkey(a) for a in e["args"])]
             return inner
@@ -339,7 +460,7 @@ class Skel:
                 if strip(e["args"][0]).get("inlined_from"):
                     return inner          # `new_helper(..)?`: the helper's body stands here, its own returns are the exits
                 return inner + [("?",)]
-            if MOD in d and nm in ("err",):
+            if MOD in d and nm in ("err", "parse_error"):
                 return inner + [("err",)]
             if (MOD in d and nm not in ("ok", "ok_consume", "err")) or nm.startswith(LOCAL_PREFIXES):
                 return inner + [("call", nm) + tuple(argkey(a) for a in e["args"] if not (field_path(a) and len(field_path(a)) == 1 and field_path(a)[0] in STATE_NAMES))]
